@@ -7,7 +7,7 @@ R5 ValueSet::record / Span::record visit rules
 """
 import re
 from rulekit import Facts, where, proj_names
-from rulekit.sym import PathEval, show
+from rulekit.sym import PathEval, show, canon
 from rulekit.query import option_test, recv_fields, closure_of_term
 from rules import fxlib
 
@@ -50,6 +50,8 @@ def run(ck):
     ck.rule("C10.R14", "`the collector` whose visitor sees the fields is the emitting thread's current one: get_default's path choice and the writers of the per-thread default (as C02.R2/R3)", floor=6)
     ck.rule("C10.R15", "a registered callsite stays reachable for every later re-evaluation: the lock-free list's push links to the head it observed, on every retry (as C04.R3)", floor=5)
     ck.rule("C10.R16", "the value set a macro built reaches the collector's visitor through Dispatch unchanged: new_span / record / event forward 1:1 (as C09.R4)", floor=3)
+    ck.rule("C10.R18", "a key names a field of *this* span or nothing: a Field key is accepted only when it is from the span's own callsite "
+            "(callsite identity compared, the key itself handed back), a string key only through the span's own field set", floor=3)
     ck.rule("C10.R17", "every way of making a Dispatch registers it with the callsite registry, so its collector is asked about every callsite and the max level covers it (as C01.R6)", floor=3)
     ck.rule("C10.R9", "an enabled emission is not skipped by a stale `never`: the interest a first hit caches is the fold over the registered dispatchers, computed under the registry lock (as C04.R1)", floor=3)
     ck.rule("C10.R8", "`a collector has been installed` is sticky (as C18.R5): disabled callsites evaluate nothing also with the log feature", floor=3)
@@ -98,6 +100,7 @@ def run(ck):
     C04.r3(ck, F, rid="C10.R15")
     from rules import C01 as _C01b
     _C01b.r6(ck, F, rid="C10.R17")
+    as_field_rule(ck, F)
     from rules import C09 as _C09x
     _C09x.dispatch_forwarding(ck, F, rid="C10.R16", only={"new_span", "record", "enabled"})
     C02.r2(ck, F, rid="C10.R14")
@@ -385,6 +388,49 @@ def r2(ck, FX, body, fname, exp, rid="C10.R2"):
 
 
 # ------------------------------------------------------------------ R4
+def as_field_rule(ck, F, rid="C10.R18"):
+    """Span::record / field / has_field resolve their key with AsField::as_field(metadata). ValueSet::record re-checks the
+    callsite of each key it is given, so a key that as_field re-issues from the target's own field set passes that
+    second check: as_field is the one place where `a field this span did not declare is ignored` is decided."""
+    n = 0
+    for i in F.impls:
+        if not str(i.get("trait", "")).endswith("tracing::field::AsField"):
+            continue
+        b = F.body(i["methods"].get("as_field") or "")
+        st = i["self_ty"]
+        if not ck.anchor(rid, "AsField for %s" % st, b):
+            continue
+        n += 1
+        rows = [([(show(canon(c[0])), c[1]) for c in p.conds if c[0][0] != "const"], show(p.ret)) for p in PathEval(b).run() if p.end == "return"]
+        if st == "str":
+            key = "AsField for str looks the name up in the span's own field set"
+            ok = [r for _, r in rows] == ["field(fields(arg2), arg1)"]
+            why = "returns %s" % [r for _, r in rows]
+        else:
+            key = "AsField for %s accepts a key only from the span's own callsite" % (("&" if st.startswith("&") else "") + st.rsplit("::", 1)[-1])
+            some = [(c, r) for c, r in rows if r.startswith("Option::Some")]
+            bad = []
+            for c, r in some:
+                same = any(t in ("eq(callsite(arg1), callsite(arg2))", "eq(callsite(arg2), callsite(arg1))") and v != 0 for t, v in c) or \
+                    any(t in ("ne(callsite(arg1), callsite(arg2))", "ne(callsite(arg2), callsite(arg1))") and v == 0 for t, v in c)
+                if not same:
+                    bad.append("Some on a path that has not found the two callsites equal (conditions %s)" % c)
+                if r != "Option::Some{clone(arg1)}":
+                    bad.append("hands back %s, not the key it was given" % r)
+            non = [r for c, r in rows if not r.startswith("Option::Some") and r != "Option::None{}"]
+            if non:
+                bad.append("returns %s: a key re-issued from the span's field set passes ValueSet's own callsite check whatever callsite it came from" % non)
+            if not some and not non:
+                bad.append("never accepts a key")
+            ok, why = not bad, "; ".join(bad)
+        if ok:
+            ck.ok(rid, key, fn=b.path, detail=rows)
+        else:
+            ck.bad(rid, key, where(b.raw["sp"]), why, fn=b.path)
+    if n < 3:
+        ck.bad(rid, "AsField impls", "tracing/src/field.rs", "only %d AsField impls found (Field, &Field, str expected)" % n)
+
+
 def visit_defaults(ck, F, rid="C10.R4"):
     """The provided methods of `Visit` are what every visitor that does not override them runs (the JSON visitors do not
     override the 128-bit ones). Each hands *the value it was given* on -- to record_debug, or to a sibling record_* --
